@@ -10,7 +10,7 @@ use std::panic::{catch_unwind, AssertUnwindSafe};
 pub fn gen_big(r: &mut Rng, cases: usize, size: usize, out: &mut Out) {
     let maxv = if size == 0 { 16 } else { size };
     for case in 0..cases {
-        let nv = r.range(maxv.saturating_sub(3).max(8), maxv);
+        let nv = r.range(maxv.saturating_sub(1).max(8), maxv);
         let base = r.below(1 << nv);
         let mut vs: Vec<usize> = (0..nv).collect();
         for i in (1..vs.len()).rev() {
@@ -27,7 +27,7 @@ pub fn gen_big(r: &mut Rng, cases: usize, size: usize, out: &mut Out) {
             out.line(&format!("var {v}"));
             len += 1;
         }
-        let nops = r.range(300, 520);
+        let nops = r.range(380, 520);
         let pool = 40usize;
         for _ in 0..nops {
             let pick = |r: &mut Rng| len - 1 - r.usize(pool.min(len - 2));
@@ -52,6 +52,50 @@ pub fn gen_big(r: &mut Rng, cases: usize, size: usize, out: &mut Out) {
         }
         out.line("finish");
     }
+}
+
+/// exhaustive small scope: EVERY sequence of `len` operations over `nv` variables (operands: any
+/// earlier result or a terminal), each followed by the audit of `finish`
+pub fn gen_exh(nv: usize, len: usize, out: &mut Out) {
+    fn options(nv: usize, h: usize) -> Vec<String> {
+        let mut o = Vec::new();
+        for v in 0..nv {
+            o.push(format!("var {v}"));
+        }
+        for a in 0..h {
+            o.push(format!("not #{a}"));
+            for b in 0..h {
+                for op in ["and", "or", "imp", "iff", "xor"] {
+                    o.push(format!("{op} #{a} #{b}"));
+                }
+            }
+            for v in 0..nv {
+                for c in 0..2 {
+                    o.push(format!("restrict #{a} {v} {c}"));
+                }
+            }
+        }
+        o
+    }
+    fn rec(nv: usize, len: usize, cur: &mut Vec<String>, case: &mut usize, out: &mut Out) {
+        if cur.len() == len {
+            out.line(&format!("case bddexh-{}", *case));
+            *case += 1;
+            out.line(&format!("new {nv}"));
+            for l in cur.iter() {
+                out.line(l);
+            }
+            out.line("finish");
+            return;
+        }
+        for o in options(nv, 2 + cur.len()) {
+            cur.push(o);
+            rec(nv, len, cur, case, out);
+            cur.pop();
+        }
+    }
+    let mut case = 0;
+    rec(nv, len, &mut Vec::new(), &mut case, out);
 }
 
 pub fn gen(r: &mut Rng, cases: usize, size: usize, out: &mut Out) {
